@@ -78,8 +78,8 @@ func genC03(rng *rand.Rand, idx int, kind string, thorough bool) *c03Spec {
 	case "reroute":
 		sp.Ring = true
 		sp.Hops = 2
-		sp.SizeAB = 400000 + int64(rng.Intn(400000))
-		sp.SizeBA = int64(rng.Intn(100000))
+		sp.SizeAB = 1500000 + int64(rng.Intn(1500000))
+		sp.SizeBA = int64(rng.Intn(400000))
 		sp.Mode = "duplex"
 		sp.MaxWrite = 16384
 		sp.DelayMs = 5
@@ -428,21 +428,42 @@ func runC03Trial(run *ev.Run, sp *c03Spec) {
 		for i := 0; i < 3000 && progress.Load() < (sp.SizeAB+sp.SizeBA)*3/10; i++ {
 			time.Sleep(10 * time.Millisecond)
 		}
-		nh := a.Status().RoutingTable[bid]
-		var cut *mesh.LinkInfo
-		for k, l := range links {
-			if strings.HasPrefix(k, ids[0]+"|") && strings.HasSuffix(k, "|"+nh) {
-				cut = l
+		// the link in use next to the sending end is cut while that end is sending at full speed, the route moves to
+		// the alternative, the link is healed again; repeated while the transfer lasts (up to 6 cuts), so that a cut
+		// also lands in the instant in which a datagram is being handed to the dying link
+		total := sp.SizeAB + sp.SizeBA
+		for cuts := 0; cuts < 6 && progress.Load() < total*9/10; cuts++ {
+			nh := a.Status().RoutingTable[bid]
+			var cut *mesh.LinkInfo
+			for k, l := range links {
+				if strings.HasPrefix(k, ids[0]+"|") && strings.HasSuffix(k, "|"+nh) {
+					cut = l
+				}
 			}
-		}
-		if cut != nil {
+			if cut == nil {
+				break
+			}
 			cut.L.Down()
+			moved := false
 			for i := 0; i < 400; i++ {
 				if n2 := a.Status().RoutingTable[bid]; n2 != "" && n2 != nh {
-					rerouted = true
+					moved = true
 					break
 				}
 				time.Sleep(50 * time.Millisecond)
+			}
+			if moved {
+				rerouted = true
+				run.Count("reroute_cuts_under_traffic", 1)
+			}
+			cut.L.Up()
+			// let the transfer advance (and the healed link come back) before the next cut
+			at := progress.Load()
+			for i := 0; i < 300 && progress.Load() < at+total/12 && progress.Load() < total*9/10; i++ {
+				time.Sleep(10 * time.Millisecond)
+			}
+			if !moved {
+				break
 			}
 		}
 	}
